@@ -4,6 +4,7 @@
    read back in) are regenerated from channel.rs by tools/gen_chanwriter.py (Generated/ChanWriter.lean); `Node.written`
    (Model/ChanPersist.lean) applies them to the node of the two-party protocol model. -/
 import LdkModel.Proofs.ChanPersist
+import LdkModel.Model.ChanReest
 import LdkModel.Props.ChanProto
 
 namespace Ldk.C01Persist
@@ -199,6 +200,43 @@ def feeRestartRun : List EvR := [
 
 example : ((runR (Sys.init 600000 400000 253) feeRestartRun).map (fun s => (s.agreed, s.feeAgreed, s.b.pendingFee, s.b.feerate))) =
     some (true, true, none, 253) := by decide
+
+/-- THE RETRANSMISSION DECISIONS OF channel_reestablish, over the comparisons GENERATED from the Rust text (`required_revoke`,
+    `next_counterparty_commitment_number`, the commitment_signed arms; tools/gen_reest.py): whenever the node's counters are
+    consistent (`csSent = raaRecv + [AwaitingRemoteRevoke]`, an invariant of all runs: next theorem) they decide exactly what the
+    protocol model's `reestablish` decides — which revoke_and_ack is owed again and whether the last batch + commitment_signed
+    is retransmitted.  A wrong comparison (±1, swapped side) in the source changes the generated definition and this proof fails. -/
+theorem reestablish_generated_eq (n : Node) (p q : Nat) (hc : n.csSent = n.raaRecv + (if n.awaitingRaa then 1 else 0)) :
+    n.reestablishG p q = n.reestablish p q := by
+  unfold Node.reestablishG Node.reestablish Reest.requiredRevoke Reest.commitmentDecision Reest.nextCounterpartyCommitmentNumber Node.retrans
+  cases hp : n.paused
+  · simp
+  · cases ha : n.awaitingRaa <;> simp only [ha] at hc <;>
+      by_cases h1 : q = n.csRecv <;> by_cases h2 : q + 1 = n.csRecv <;>
+      by_cases h3 : p = n.csSent <;> by_cases h4 : p + 1 = n.csSent <;>
+      simp_all <;> omega
+
+/-- ... in every reachable state of every run (disconnections and, by `restart_runs_are_disconnect_runs`, restarts included), for
+    both nodes and whatever numbers the peer's channel_reestablish carries: so `restart_retransmits_same_commitment_partial` and
+    `lost_messages_retransmitted_partial` are statements about the generated decisions. -/
+theorem reestablish_generated_on_runs (va vb f0 : Nat) (evs : List Ev) (s : Sys) (h : run (Sys.init va vb f0) evs = some s) (p q : Nat) :
+    s.a.reestablishG p q = s.a.reestablish p q ∧ s.b.reestablishG p q = s.b.reestablish p q := by
+  obtain ⟨o1, o2, o3, o4⟩ := Ldk.ChanProto.at_most_one_outstanding va vb f0 evs s h
+  obtain ⟨_, _, _, _, _, _, c7, c8⟩ := Ldk.ChanProto.counters va vb f0 evs s h
+  constructor
+  · apply reestablish_generated_eq
+    cases ha : s.a.awaitingRaa
+    · have : ¬ s.a.csSent = s.a.raaRecv + 1 := fun e => by have := o3.2 e; simp [ha] at this
+      simp; omega
+    · have := o3.1 ha; simp; omega
+  · apply reestablish_generated_eq
+    cases hb : s.b.awaitingRaa
+    · have : ¬ s.b.csSent = s.b.raaRecv + 1 := fun e => by have := o4.2 e; simp [hb] at this
+      simp; omega
+    · have := o4.1 hb; simp; omega
+
+example : (Node.init 5 true 0).reestablishG 0 0 = none ∧
+    ({ Node.init 5 true 0 with paused := true, csSent := 1, awaitingRaa := true } : Node).reestablishG 0 0 ≠ none := by decide
 
 /-- the writer of seeded change C01-r5 on the model node: the feerate of `pending_update_fee` is written whatever its state -/
 def writtenC01r5 (n : Node) : Node :=
